@@ -7,6 +7,7 @@ import JxlModel.Driver.C17
 import JxlModel.Driver.C14
 import JxlModel.Driver.C18
 import JxlModel.Driver.C16
+import JxlModel.Driver.C06
 
 def main (args : List String) : IO UInt32 := do
   match args with
@@ -22,4 +23,5 @@ def main (args : List String) : IO UInt32 := do
   | ["c18"] => Jxl.Driver.C18.main; return 0
   | ["c16"] => Jxl.Driver.C16.main false; return 0
   | ["c16", "alg"] => Jxl.Driver.C16.main true; return 0
+  | ["c06"] => Jxl.Driver.C06.main; return 0
   | _ => IO.eprintln "usage: jxlmodel <component>"; return 2
